@@ -90,9 +90,11 @@ def probe_points(obj):
     return np.array(pts)
 
 
-def observe(obj):
+def observe(obj, order_rng=None):
     """dict name -> canonical value; exceptions are recorded by kind. Face-indexed data are keyed by
-    the face's vertex set so that a different (but equivalent) face order does not matter."""
+    the face's vertex set so that a different (but equivalent) face order does not matter.
+    order_rng: read the members in an order drawn from it (a query that refreshes a lazily cached attribute would
+    otherwise always run before the query that would have shown the stale value)."""
     out = {}
     cls = type(obj)
     faces = None
@@ -101,7 +103,20 @@ def observe(obj):
             faces = [tuple(int(i) for i in f) for f in obj.faces]
         except Exception:
             faces = None
-    for name in public_properties(cls):
+    names = public_properties(cls)
+    methods_first = False
+    if order_rng is not None:
+        names = [names[i] for i in order_rng.permutation(len(names))]
+        methods_first = bool(order_rng.random() < 0.5)
+    if methods_first:
+        _observe_methods(obj, faces, out)
+    for name in names:
+        if name in LOOSE:
+            # miniball picks its pivots with Python's global `random`; on cospherical vertex sets (boxes, prisms) its
+            # answer depends on them (an external library's numerical behaviour, judged by C13 with a certificate).
+            # Same vertices + same pivots = same answer, so that a difference here is a difference of the shape.
+            import random
+            random.seed(20240917)
         try:
             val = getattr(obj, name)
         except Exception as e:
@@ -114,6 +129,55 @@ def observe(obj):
         nz = float(np.asarray(obj.normal, dtype=float)[2])
         if abs(abs(nz) - 1.0) > 1e-12:
             del out["planar_moments_inertia"]
+    if not methods_first:
+        _observe_methods(obj, faces, out)
+    return out
+
+
+def _observe_methods(obj, faces, out):
+    cls = type(obj)
+    # queries that take arguments (methods): lazily cached per-face / per-simplex data hide behind these
+    if callable(getattr(obj, "get_face_area", None)) and faces is not None:
+        try:
+            arr = np.asarray(obj.get_face_area(), dtype=float)
+            out["get_face_area()"] = ("byface", {frozenset(faces[i]): arr[i] for i in range(len(faces))})
+            out["get_face_area(total)"] = ("num", np.float64(np.sum(np.asarray(obj.get_face_area(list(range(len(faces)))), dtype=float))))
+        except Exception as e:
+            out["get_face_area()"] = ("raise", exc_kind(e))
+    if callable(getattr(obj, "get_dihedral", None)) and faces is not None:
+        try:
+            dih = {}
+            for i, nb in enumerate(obj.neighbors):
+                for j in nb:
+                    if i < int(j):
+                        # compared through the cosine: the angle itself is ill-conditioned (sqrt of the rounding
+                        # error) for coplanar neighbours, where acos is evaluated at -1
+                        dih[frozenset([frozenset(faces[i]), frozenset(faces[int(j)])])] = np.cos(np.float64(obj.get_dihedral(i, int(j))))
+            out["cos get_dihedral(neighbours)"] = ("byface", dih)
+        except Exception as e:
+            out["cos get_dihedral(neighbours)"] = ("raise", exc_kind(e))
+    if callable(getattr(obj, "compute_form_factor_amplitude", None)):
+        ffname = "form_factor_area(q)" if (hasattr(obj, "normal") or hasattr(obj, "polygon")) else "form_factor_volume(q)"
+        try:
+            c0 = np.asarray(obj.vertices, dtype=float).mean(axis=0) if hasattr(obj, "vertices") else np.zeros(3)
+            sz = max(size_of(obj) - float(np.linalg.norm(c0)), 1e-300)
+            q = np.array([[0.7, -0.4, 0.9], [0.0, 0.0, 1.3], [2.1, 0.6, -0.2], [0.0, 0.0, 0.0]]) / sz
+            ff = np.asarray(obj.compute_form_factor_amplitude(q))
+            out[ffname] = ("num", np.r_[ff.real, ff.imag])
+        except NotImplementedError:
+            pass
+        except Exception as e:
+            out[ffname] = ("raise", exc_kind(e))
+    if callable(getattr(obj, "distance_to_surface", None)) and hasattr(obj, "normal" if not hasattr(obj, "polygon") else "polygon"):
+        nrm = np.asarray((obj.polygon if hasattr(obj, "polygon") else obj).normal, dtype=float)
+        if abs(abs(float(nrm[2])) - 1.0) <= 1e-12:     # tilted planes: the in-plane frame is not a stable observable
+            try:
+                out["distance_to_surface(angles)"] = ("num", np.asarray(obj.distance_to_surface(
+                    np.array([0.1, 1.3, 2.9, 4.4, 5.8, -0.7])), dtype=float))
+            except NotImplementedError:
+                pass
+            except Exception as e:
+                out["distance_to_surface(angles)"] = ("raise", exc_kind(e))
     # queries
     try:
         pts = probe_points(obj)
@@ -192,6 +256,8 @@ def degree(name):
     """length-dimension of an observable (for the comparison scale)."""
     if "inertia" in name or name == "planar_moments_inertia":
         return 5 if "polar" not in name and "planar" not in name else 4
+    if name == "form_factor_volume(q)":
+        return 3
     if "volume" in name:
         return 3
     if "area" in name:
@@ -230,7 +296,7 @@ def compare(obs_a, obs_b, size, tol=1e-9):
                 diffs.append((name, "face sets differ", ""))
             else:
                 for k in a[1]:
-                    s2 = size if name in ("equations", "face_centroids") else 1.0
+                    s2 = size if name in ("equations", "face_centroids") else (size ** 2 if name == "get_face_area()" else 1.0)
                     if not num_close(a[1][k], b[1][k], s2, t):
                         diffs.append((name, a[1][k], b[1][k]))
                         break
@@ -268,6 +334,16 @@ def base_shape(rng, cls, flavour):
             import itertools
             v = np.array(list(itertools.product([-1, 1], repeat=3)), dtype=float)
             v = v @ gen.random_rotation(rng).T + off
+        elif flavour == "triangulated-shuffled":
+            # box or n-gonal prism; vertices relabelled below, faces fan-triangulated from a random corner, face order
+            # shuffled, cycles rotated: whether merge_faces / sort_faces need a global flip, which face they start
+            # from and which cached data they must drop all depend on these accidents
+            n = int(rng.integers(3, 8))
+            ang = 2 * np.pi * (np.arange(n) + float(rng.uniform(0, 1))) / n
+            ring = np.c_[np.cos(ang), np.sin(ang)] * np.array([1.0, float(rng.uniform(0.6, 1.0))])
+            h = float(rng.uniform(0.5, 1.5))
+            v = np.r_[np.c_[ring, -h * np.ones(n)], np.c_[ring, h * np.ones(n)]]
+            v = (v @ gen.random_rotation(rng).T + off)[rng.permutation(2 * n)]
         else:
             while True:
                 v, _ = gen.convex_solid(rng, kind="ellipsoid", scale=1.0, offset_diams=0.0)
@@ -285,6 +361,14 @@ def base_shape(rng, cls, flavour):
         if flavour == "triangulated":
             # fan-triangulated faces: merge_faces has real work to do
             faces = [np.array([f[0], f[i], f[i + 1]]) for f in cp.faces for i in range(1, len(f) - 1)]
+        if flavour == "triangulated-shuffled":
+            tri = []
+            for f in cp.faces:
+                f = np.roll(np.asarray(f), -int(rng.integers(len(f))))
+                for i in range(1, len(f) - 1):
+                    t = np.array([f[0], f[i], f[i + 1]])
+                    tri.append(np.roll(t, -int(rng.integers(3))))
+            faces = [tri[i] for i in rng.permutation(len(tri))]
         return S.Polyhedron(np.array(cp.vertices), faces, faces_are_convex=True)
     # 2-D classes
     if flavour == "regular":
